@@ -122,11 +122,22 @@ func outcome(err error) string {
 
 // c19SweepTask handles all headers with the given Seg0Len and Seg1Len:
 // 64 Seg2Len values x 4 CurrINF x 64 CurrHF.
+//
+// One scion.Base lives as long as the task and is decoded into again and again
+// (reuse monitor, see reuse.go): for every shape, one header per CurrINF value,
+// and after every 16th shape the all-zero header. Seg2Len is visited in the order
+// 0, 63, 1, 62, ... so that this object sees long shapes followed by short ones
+// and accepted shapes followed by rejected and again accepted ones.
 func c19SweepTask(a *acc, s0, s1 uint8, rsvOf func(seg [3]uint8, inf, hf uint8) uint8) {
 	var cur c19Wit
+	ru := newReuseStream("C19", a, false)
 	p, stack := mon.Try(func() {
 		var b [4]byte
-		for s2 := uint8(0); s2 < 64; s2++ {
+		for k := uint8(0); k < 64; k++ {
+			s2 := k / 2
+			if k%2 == 1 {
+				s2 = 63 - k/2
+			}
 			seg := [3]uint8{s0, s1, s2}
 			kind, ninf, nhops := refShape(seg)
 			var lastErr error
@@ -139,7 +150,13 @@ func c19SweepTask(a *acc, s0, s1 uint8, rsvOf func(seg [3]uint8, inf, hf uint8) 
 					err := base.DecodeFromBytes(b[:])
 					c19JudgeDecode(a, inf, hf, rsv, seg, kind, ninf, nhops, &base, err)
 					lastErr = err
+					if hf == (16*inf+s2)%64 {
+						ru.baseExt(b[:], &base, err)
+					}
 				}
+			}
+			if k%16 == 15 {
+				c19ReuseZero(ru, k/16, k)
 			}
 			a.class("decode/pattern=" + segPattern(seg) + "/hops=" + hopBucket(nhops) + "/" + outcome(lastErr))
 			a.eventN("decode_"+outcome(lastErr), 256)
@@ -151,6 +168,17 @@ func c19SweepTask(a *acc, s0, s1 uint8, rsvOf func(seg [3]uint8, inf, hf uint8) 
 	if p != nil {
 		a.violation("C19:panic:"+mon.PanicSite(stack), fmt.Sprintf("panic in Base.DecodeFromBytes: %v\n%s", p, stack), cur)
 	}
+}
+
+// c19ReuseZero decodes the header with three zero SegLens into the long-lived
+// Base of a sweep task and into a fresh one. (Whether that header is accepted
+// is not judged; that a used object treats it like a fresh one is.)
+func c19ReuseZero(ru *reuseStream, inf, hf uint8) {
+	var z [4]byte
+	binary.BigEndian.PutUint32(z[:], refMetaWord(inf, hf, 0, [3]uint8{}))
+	var fresh scion.Base
+	err := fresh.DecodeFromBytes(z[:])
+	ru.baseExt(z[:], &fresh, err)
 }
 
 func eqInfo(i path.InfoField, r refInfo) bool {
@@ -258,7 +286,7 @@ func posKind(seg [3]uint8, ninf, nhops int, inf, hf uint8) string {
 
 // c19DeepShape runs the pointer, stepping, reverse and representation checks
 // for one accepted shape with PRNG-sampled field contents.
-func c19DeepShape(a *acc, rng *rand.Rand, seg [3]uint8, cleanReserved bool, allStatesRawReverse bool) {
+func c19DeepShape(a *acc, rng *rand.Rand, seg [3]uint8, cleanReserved bool, allStatesRawReverse bool, ru *reuseStream, irng *rand.Rand) {
 	_, ninf, nhops := refShape(seg)
 	plen := refPathLen(ninf, nhops)
 	mask := refScionPathMask(ninf, nhops)
@@ -287,6 +315,11 @@ func c19DeepShape(a *acc, rng *rand.Rand, seg [3]uint8, cleanReserved bool, allS
 	work2 := make([]byte, plen)
 
 	p, stack := mon.Try(func() {
+		// ---- the long-lived objects of this stream: an interlude, then this path ----
+		if ru != nil {
+			c19ReuseInterlude(ru, irng, content)
+			c19ReuseFeed(ru, content)
+		}
 		// ---- representation agreement on sampled contents (pointer independent) ----
 		ref0 := refParseScionPath(content)
 		copy(work, content)
@@ -565,6 +598,65 @@ func c19DeepShape(a *acc, rng *rand.Rand, seg [3]uint8, cleanReserved bool, allS
 	}
 }
 
+// c19Packet wraps path bytes into a SCION header with 4-byte host addresses.
+func c19Packet(region []byte) []byte {
+	a := refAddrHdr{DstIA: 0x0001ff0000000110, SrcIA: 0x0002ff0000000220, Dst: []byte{10, 0, 0, 1}, Src: []byte{10, 0, 0, 2}}
+	c := refCmn{Flow: 1, NextHdr: protoUDP, HdrLen: uint8((36 + len(region)) / 4), PathType: 1}
+	return refEncodeSCION(c, &a, region)
+}
+
+// c19ReuseFeed decodes the bytes of a path into the long-lived Base, Raw and
+// Decoded, and the same path inside a packet into the two long-lived SCION
+// layers, each compared with a fresh object.
+func c19ReuseFeed(ru *reuseStream, region []byte) {
+	ru.scionPath(region, false)
+	if len(region)%4 == 0 && 36+len(region) <= 1020 {
+		pkt := c19Packet(region)
+		ru.layer(true, pkt, nil, nil, nil, nil)
+		ru.layer(false, pkt, nil, nil, nil, nil)
+	}
+}
+
+// c19ReuseInterlude hands the long-lived objects something else between two
+// accepted shapes: the header without segments, shapes that must be rejected,
+// a truncated path, or a minimal path. The inputs come from the same meta
+// header space as everything else in this check; the point is the order.
+func c19ReuseInterlude(ru *reuseStream, irng *rand.Rand, content []byte) {
+	meta := func(seg [3]uint8, tail []byte) []byte {
+		b := binary.BigEndian.AppendUint32(nil, refMetaWord(uint8(irng.IntN(4)), uint8(irng.IntN(64)), uint8(irng.IntN(64)), seg))
+		return append(b, tail...)
+	}
+	nz := func() uint8 { return uint8(1 + irng.IntN(63)) }
+	switch irng.IntN(8) {
+	case 0, 1:
+		ru.a.class("reuse/interlude/none")
+	case 2:
+		ru.a.class("reuse/interlude/header-without-segments")
+		c19ReuseFeed(ru, meta([3]uint8{}, nil))
+	case 3:
+		ru.a.class("reuse/interlude/header-without-segments+trailing-bytes")
+		c19ReuseFeed(ru, meta([3]uint8{}, content[4:min(len(content), 16)]))
+	case 4:
+		ru.a.class("reuse/interlude/gap-shape")
+		seg := [][3]uint8{{0, nz(), 0}, {0, 0, nz()}, {nz(), 0, nz()}, {0, nz(), nz()}}[irng.IntN(4)]
+		c19ReuseFeed(ru, meta(seg, content[4:]))
+	case 5:
+		ru.a.class("reuse/interlude/more-than-64-hops")
+		c19ReuseFeed(ru, meta([3]uint8{uint8(33 + irng.IntN(31)), uint8(32 + irng.IntN(32)), uint8(irng.IntN(64))}, content[4:]))
+	case 6:
+		ru.a.class("reuse/interlude/truncated-path")
+		n := 4 * (1 + irng.IntN(len(content)/4-1))
+		c19ReuseFeed(ru, content[:n])
+	case 7:
+		ru.a.class("reuse/interlude/one-hop-one-segment")
+		tail := make([]byte, refInfoLen+refHopLen)
+		for i := range tail {
+			tail[i] = byte(irng.Uint32())
+		}
+		c19ReuseFeed(ru, meta([3]uint8{1, 0, 0}, tail))
+	}
+}
+
 func c19Replay(r *mon.Run) bool {
 	f := r.ReplayFile()
 	if f == "" {
@@ -578,6 +670,23 @@ func c19Replay(r *mon.Run) bool {
 		fmt.Printf("C19: cannot read replay file %s: %v\n", f, err)
 		os.Exit(2)
 	}
+	var rw struct {
+		Witness reuseWit `json:"witness"`
+	}
+	if json.Unmarshal(b, &rw) == nil && rw.Witness.Dir == "reuse" {
+		// the recorded input history into a new set of long-lived objects
+		r.Rule = "replay of one input history of the reuse monitor"
+		a := newAcc()
+		if err := newReuseStream("C19", a, true).replay(&rw.Witness); err != nil {
+			fmt.Printf("C19: cannot replay %s: %v\n", f, err)
+			os.Exit(2)
+		}
+		a.sample(rw.Witness)
+		a.class("replay")
+		a.class("replay/reuse")
+		a.flush(r)
+		return true
+	}
 	seg := rec.Witness.Seg
 	kind, _, _ := refShape(seg)
 	fmt.Printf("C19 replay: SegLen=%v (%s)\n", seg, kind)
@@ -585,8 +694,8 @@ func c19Replay(r *mon.Run) bool {
 	a := newAcc()
 	c19SweepTask(a, seg[0], seg[1], func([3]uint8, uint8, uint8) uint8 { return rec.Witness.Rsv })
 	if kind == shapeOK {
-		c19DeepShape(a, r.Rand("replay"), seg, true, true)
-		c19DeepShape(a, r.Rand("replay2"), seg, false, true)
+		c19DeepShape(a, r.Rand("replay"), seg, true, true, nil, nil)
+		c19DeepShape(a, r.Rand("replay2"), seg, false, true, nil, nil)
 	}
 	a.sample(rec.Witness)
 	a.class("replay")
@@ -605,12 +714,19 @@ func checkC19(r *mon.Run) {
 		"IsFirst/Penultimate/LastHop, IncPath (single step and stepping from hop 0 to the end), Reverse (once against the " +
 		"reference reversal, twice against the original) on Raw and Decoded, ToRaw/ToDecoded/Get*Field agreement. " +
 		"class = decode pattern (which SegLens are zero) x hop-count bucket x outcome; pointer state kind " +
-		"(NumINF x segment x position in segment x pointer consistency); representation/stepping per NumINF x hop bucket"
+		"(NumINF x segment x position in segment x pointer consistency); representation/stepping per NumINF x hop bucket. " +
+		"Reuse monitor: in phase A one scion.Base per (Seg0Len, Seg1Len) task decodes four headers of every shape (Seg2Len in the order " +
+		"0,63,1,62,...) and the all-zero header after every 16th shape; in phase B one scion.Base, scion.Raw, scion.Decoded and two " +
+		"slayers.SCION layers (with/without RecyclePaths, the path wrapped into a packet) per stream of 32 shapes decode every shape's bytes, " +
+		"with a PRNG-chosen interlude before each (header without segments, gap shape, more than 64 hops, truncated path, one-hop path); " +
+		"each is compared with a fresh object on the same bytes: decision, fields, Len(), SerializeTo into exactly Len() bytes, IncPath. " +
+		"reuse/<object>/<what the object decoded before>"
 	r.Assumptions = []string{
 		"the all-zero SegLen header (and only it) is recorded but not judged: the statement does not fix it",
 		"IsXover/IsFirstHopAfterXover/single Reverse are judged only where CurrINF designates the segment containing an in-range CurrHF; other pointer states are judged for CurrINFMatchesCurrHF, hop position predicates, IncPath and Reverse-twice only",
 		"reserved bits are compared under the mask derived from scion-header.rst (serialization may clear them)",
 		"hop/info field contents are sampled (one or more random fillings per shape), not enumerated",
+		"reuse monitor: whether the all-zero SegLen header is accepted is still not judged, that a used object answers it like a fresh one is; the state of an object after a rejected decode is not looked at",
 	}
 
 	// The rejecting decodes allocate an error with a stack trace each; with 16
@@ -631,6 +747,7 @@ func checkC19(r *mon.Run) {
 		runTasks(r, 64, func(t int, a *acc) {
 			rng := r.Rand(fmt.Sprintf("rsv/%d/%d", round, t))
 			var cur c19Wit
+			ru := newReuseStream("C19", a, false)
 			p, stack := mon.Try(func() {
 				for s1 := uint8(0); s1 < 64; s1++ {
 					for s2 := uint8(0); s2 < 64; s2++ {
@@ -644,6 +761,10 @@ func checkC19(r *mon.Run) {
 						err := base.DecodeFromBytes(b[:])
 						c19JudgeDecode(a, inf, hf, rsv, seg, kind, ninf, nhops, &base, err)
 						a.event("rsv_toggled_" + outcome(err))
+						ru.baseExt(b[:], &base, err)
+						if s2 == 40 && s1%8 == 7 {
+							c19ReuseZero(ru, inf, hf)
+						}
 					}
 				}
 				a.class("decode/rsv-nonzero")
@@ -678,9 +799,13 @@ func checkC19(r *mon.Run) {
 	ntasks := (len(shapes) + chunk - 1) / chunk
 	runTasks(r, ntasks, func(t int, a *acc) {
 		rng := r.Rand(fmt.Sprintf("c19/deep/%d", t))
+		// the long-lived decoder objects of this stream of shapes, and the PRNG
+		// that chooses what they are handed between two shapes
+		ru := newReuseStream("C19", a, true)
+		irng := r.Rand(fmt.Sprintf("c19/reuse/%d", t))
 		for i := t * chunk; i < (t+1)*chunk && i < len(shapes); i++ {
 			for f := 0; f < fillings; f++ {
-				c19DeepShape(a, rng, shapes[i], (i+f)%2 == 0, r.Thorough())
+				c19DeepShape(a, rng, shapes[i], (i+f)%2 == 0, r.Thorough(), ru, irng)
 			}
 			a.event("shape_deep_checked")
 		}
@@ -697,8 +822,14 @@ func checkC19(r *mon.Run) {
 		r.Events("decode_accepted")+r.Events("decode_rejected") == 1<<26
 	r.Sample(map[string]any{"phase": "A", "headers": 1 << 26, "accepted": r.Events("decode_accepted"), "rejected": r.Events("decode_rejected")})
 	r.Require(1<<26-256, 40, "decode_accepted", "decode_rejected", "rsv_toggled_accepted", "rsv_toggled_rejected",
-		"incpath_step", "boundary_predicates", "reverse_decoded", "reverse_raw", "representation_checked")
+		"incpath_step", "boundary_predicates", "reverse_decoded", "reverse_raw", "representation_checked",
+		"reuse_step", "reuse_equal", "reuse_both_rejected")
 	r.RequireClasses("decode/pattern=nnn/hops=64/accepted", "decode/pattern=nnn/hops=65/rejected",
 		"decode/pattern=nzn/hops=2-3/rejected", "decode/pattern=znn/hops=2-3/rejected", "decode/pattern=zzn/hops=1/rejected",
-		"decode/pattern=nzz/hops=17-63/accepted", "decode/pattern=nnz/hops=64/accepted")
+		"decode/pattern=nzz/hops=17-63/accepted", "decode/pattern=nnz/hops=64/accepted",
+		"reuse/base/nonempty-then-empty", "reuse/raw/nonempty-then-empty", "reuse/decoded/nonempty-then-empty",
+		"reuse/scion-layer-recycled-paths/nonempty-then-empty", "reuse/scion-layer/nonempty-then-empty",
+		"reuse/interlude/header-without-segments", "reuse/interlude/gap-shape", "reuse/interlude/more-than-64-hops",
+		"reuse/interlude/truncated-path")
+	reuseRequire(r, "base", "raw", "decoded", "scion-layer", "scion-layer-recycled-paths")
 }
